@@ -32,6 +32,7 @@ type fakeServer struct {
 	log     *attemptLog
 	conns   []net.Conn
 	delayMs int     // delay before every answer (C17 completion orders)
+	acted   func()  // invoked after a scripted action other than silence has been carried out
 	ctrl    *bkCtrl // fail-backup schedules: every dial and every arriving request is reported, answers are held
 	wmu     sync.Mutex
 	byArg   map[string]string // when set: the action is chosen by the request's payload, not by arrival order
@@ -185,7 +186,11 @@ func (s *fakeServer) serve(conn net.Conn) {
 			}(f, act)
 			continue
 		}
-		if !s.respond(conn, f, act, delay, onCtx) {
+		ok := s.respond(conn, f, act, delay, onCtx)
+		if s.acted != nil && act != "silent" {
+			s.acted()
+		}
+		if !ok {
 			return
 		}
 	}
